@@ -532,8 +532,28 @@ package flamego
 // C15 Recovery
 // ---------------------------------------------------------------------------
 
-//@ trusted flamego.Env() r
-//@   pure
+// The runtime mode lives in a package-level atomic.Value. Reading it has no effect; only SetEnv writes it, and only
+// with one of the three valid modes.
+//@ ghost field atomic.Value.val interface{}
+//@ trusted (*atomic.Value).Load(v) r
+//@   modifies nothing
+//@   ensures r == v.val
+//@ trusted (*atomic.Value).Store(v, x)
+//@   modifies v.val
+//@   panics x == nil
+//@   ensures v.val == x
+//@ define envMode() EnvType = env.val.(EnvType)
+// the variable's initialiser stores EnvTypeDev and SetEnv (below) keeps the dynamic type
+//@ global dyn(env.val) == type(EnvType)
+//@ func Env
+//@   props C15
+//@   modifies nothing
+//@   ensures result == envMode()
+//@ func SetEnv
+//@   props C15
+//@   modifies env.val
+//@   ensures dyn(env.val) == type(EnvType)
+//@   ensures envMode() == ite(e == EnvTypeDev || e == EnvTypeProd || e == EnvTypeTest, e, old(envMode()))
 // the helpers of the stack trace run inside the deferred function: they must not panic themselves
 //@ func Recovery$1
 //@   props C15
@@ -561,8 +581,8 @@ package flamego
 //@   modifies hdrOf(rhWriter(c))[*], rhWriter(c).hdrCount, rhWriter(c).hdrSent, rhWriter(c).firstStatus, rhWriter(c).bodyAtHdr, rhWriter(c).ctAtHdr, rhWriter(c).bodyBytes, rhWriter(c).lastWrite
 //@   ensures err == nil ==> rhWriter(c).hdrCount == old(rhWriter(c).hdrCount) && rhWriter(c).bodyBytes == old(rhWriter(c).bodyBytes)
 //@   ensures err != nil ==> rhWriter(c).hdrCount == old(rhWriter(c).hdrCount) + 1 && (!old(rhWriter(c).hdrSent) ==> rhWriter(c).firstStatus == 500)
-//@   ensures err != nil && !old(rhWriter(c).hdrSent) ==> rhWriter(c).ctAtHdr == ite(flamego.Env() == EnvTypeDev, "text/html", "text/plain")
-//@   ensures err != nil && flamego.Env() != EnvTypeDev ==> rhWriter(c).lastWrite == http.StatusText(500)
+//@   ensures err != nil && !old(rhWriter(c).hdrSent) ==> rhWriter(c).ctAtHdr == ite(envMode() == EnvTypeDev, "text/html", "text/plain")
+//@   ensures err != nil && envMode() != EnvTypeDev ==> rhWriter(c).lastWrite == http.StatusText(500)
 
 // ---------------------------------------------------------------------------
 // C16 Static
@@ -595,6 +615,7 @@ package flamego
 //@   props C16
 //@   ensures result.Directory == ite(opts.Directory == "", "public", opts.Directory)
 //@   ensures result.FileSystem != nil
+//@   ensures result.FileSystem == ite(opts.FileSystem == nil, iface(type(http.Dir), result.Directory), opts.FileSystem)
 //@   ensures opts.Prefix == "" ==> result.Prefix == ""
 //@   ensures opts.Prefix != "" ==> result.Prefix == "/" + strings.Trim(opts.Prefix, "/")
 //@   ensures result.Index == ite(opts.Index == "", "index.html", opts.Index)
